@@ -223,6 +223,7 @@ class Ctx:
         self.hist = {}
         self.samples = []
         self.notes = []
+        self.drift = []
         self.distinct = set()
         self.evaluations = 0
         self.t0 = time.time()
@@ -314,6 +315,15 @@ def run_check(prop, tier, seed):
     broken = []          # proof obligations / correspondences that no longer check
     infra = []           # infrastructure problems (exit 2)
     obligations, discharged, axioms = [], [], {}
+    # source drift against the tree the model was last validated on: not a violation, only a reason
+    # to spend the large budgets (see harness/fingerprint.py)
+    try:
+        import fingerprint
+        ctx.drift = fingerprint.drift(prop.ID, REPO)
+    except Exception as e:
+        ctx.drift = ['<fingerprint error %s>' % type(e).__name__]
+    if ctx.drift:
+        ctx.notes.append('source drift in anchored definitions (large budgets used): ' + ', '.join(ctx.drift[:12]))
 
     # ---- 1. translator + model + driver --------------------------------
     with BuildLock():
@@ -378,7 +388,7 @@ def run_check(prop, tier, seed):
     failures = []
     try:
         seeds = [d.case for d in disagreements]
-        failures = list(prop.search(ctx, seeds, full=bool(broken)) or [])
+        failures = list(prop.search(ctx, seeds, full=bool(broken) or bool(ctx.drift)) or [])
     except Exception:
         infra.append({'kind': 'search-crash', 'detail': traceback.format_exc()[-3000:]})
     search_evals = ctx.evaluations - corr_evals
